@@ -243,6 +243,19 @@ func checkLayerArith(c *Ctx, rule string) {
 			body, _ := s.LoopBody(ps.Events[memIdx].InFn, ml)
 			for _, q := range body {
 				reset, inner := false, 0
+				// second form inside a separate pass: the list is assigned from one pass over the
+				// contributions (a helper given the level)
+				assigned := -1
+				for i, e := range q.Events {
+					if e.Kind == "store" && e.FKey == "pot.Level.Contributors" && !(e.Val.Op == "list" && len(e.Val.Args) == 0) && e.Val.Op != "append" {
+						assigned = i
+					}
+				}
+				if assigned >= 0 {
+					X := strings.TrimSuffix(q.Events[assigned].Loc, ".Contributors")
+					bad = append(bad, assignedFromPass(s, q, assigned, X, ps.Events[memIdx].InFn)...)
+					continue
+				}
 				for _, e := range q.Events {
 					if e.Kind == "store" && e.FKey == "pot.Level.Contributors" && e.Val.Op == "list" && len(e.Val.Args) == 0 {
 						reset = true
@@ -298,29 +311,7 @@ func checkLayerArith(c *Ctx, rule string) {
 				} else {
 					members = mem.Val.String()
 					// the pass over the contributions that produced it
-					nIn := 0
-					for _, e := range q.Events[:iMem] {
-						if e.Kind != "loop" {
-							continue
-						}
-						nIn++
-						levelArg := func(t string) bool { return strings.HasSuffix(t, ".Level") }
-						if e.InFn != ps.Events[arIdx].InFn {
-							// a helper given the level: its parameter stands for this level's Level
-							for _, en := range q.Events {
-								if en.Kind == "enter" && en.Fn == e.InFn {
-									fn, args := en.Fn, en.Args
-									levelArg = func(t string) bool {
-										return substParams(t, fn, args) == X+".Level"
-									}
-								}
-							}
-						}
-						bad = append(bad, membershipLoop(s, e, levelArg, "")...)
-					}
-					if nIn != 1 {
-						bad = append(bad, "a level's member list does not come from exactly one pass over the contributions")
-					}
+					bad = append(bad, assignedFromPass(s, q, iMem, X, ps.Events[arIdx].InFn)...)
 				}
 			}
 			a := wg.Val.asAff()
@@ -373,6 +364,37 @@ func checkLayerArith(c *Ctx, rule string) {
 		}
 	}
 	c.check(len(bad) == 0 && nArith > 0, rule, fnKey(builder), p.FnPos(builder), "levels sorted ascending; members = every contribution at or above the level; step = level minus previous level; total = members x step", "the layers are not built as nested side pots", uniq(bad, 4)...)
+}
+
+// assignedFromPass: the member list stored by event iMem of body path q comes from exactly one
+// pass over the contributions that precedes it, in the host function or in a helper given the
+// level of X.
+func assignedFromPass(s *Summ, q *PathSum, iMem int, X string, host *ssa.Function) []string {
+	var bad []string
+	nIn := 0
+	for _, e := range q.Events[:iMem] {
+		if e.Kind != "loop" {
+			continue
+		}
+		nIn++
+		levelArg := func(t string) bool { return strings.HasSuffix(t, ".Level") }
+		if e.InFn != host {
+			// a helper given the level: its parameter stands for this level's Level
+			for _, en := range q.Events {
+				if en.Kind == "enter" && en.Fn == e.InFn {
+					fn, args := en.Fn, en.Args
+					levelArg = func(t string) bool {
+						return substParams(t, fn, args) == X+".Level"
+					}
+				}
+			}
+		}
+		bad = append(bad, membershipLoop(s, e, levelArg, "")...)
+	}
+	if nIn != 1 {
+		bad = append(bad, "a level's member list does not come from exactly one pass over the contributions")
+	}
+	return bad
 }
 
 // membershipLoop checks one pass over the recorded contributions: a full range over the map, a
